@@ -410,7 +410,21 @@ steps:
       - a
 """ % ("x" * 2400, "y" * 2400)}
 
-FINAL = {"chain": (FINISHED, [FINISHED, FINISHED, FINISHED]), "retry": (FINISHED, [FINISHED, FINISHED]),
+SCENARIOS["prior"] = {
+    # the history already holds a SUCCESSFUL run of the same DAG (made before the flag file exists); the run that is killed fails
+    "steps": ["a", "b"], "fails": ["b"], "prior": True,
+    "yaml": """name: prior
+schedule: "* * * * *"
+steps:
+  - name: a
+    command: sh -c "touch $M/a.start; sleep 0.01; touch $M/a.end"
+  - name: b
+    command: sh -c "touch $M/b.start; if test -f $BLACKDAGGER_HOME/fail.flag; then exit 3; fi; touch $M/b.end"
+    depends:
+      - a
+"""}
+
+FINAL = {"prior": (FAILED, [FINISHED, FAILED]), "chain": (FINISHED, [FINISHED, FINISHED, FINISHED]), "retry": (FINISHED, [FINISHED, FINISHED]),
          "fail": (FAILED, [FINISHED, FAILED, CANCELED]), "big": (FINISHED, [FINISHED, FINISHED])}
 
 # boundaries of the shutdown path after the final status has reached the history file
@@ -429,6 +443,7 @@ class Crash:
         self.n = 0
         self.socks = set()
         self.lock = threading.Lock()
+        self.prior = {}
 
     def home(self, scen):
         with self.lock:
@@ -438,6 +453,16 @@ class Crash:
         os.makedirs(os.path.join(h, "dags"))
         os.makedirs(os.path.join(h, "m"))
         open(os.path.join(h, "dags", scen + ".yaml"), "w").write(SCENARIOS[scen]["yaml"])
+        if SCENARIOS[scen].get("prior"):
+            rc, err, _ = self.start(h, scen)
+            o = self.latest(h, scen)
+            L = o.get("latest") or {}
+            with self.lock:
+                self.prior[h] = {"rc": rc, "req": L.get("req"), "st": L.get("st")}
+            open(os.path.join(h, "fail.flag"), "w").write("x")
+            shutil.rmtree(os.path.join(h, "m"))
+            os.makedirs(os.path.join(h, "m"))
+            time.sleep(0.002)
         return h
 
     def env(self, h):
@@ -515,54 +540,84 @@ class Crash:
         case["disk_state"] = self.disk_state(h) if case.get("killed") else None
         if how == "sys":
             # the label comes from the strace log; it counts only together with what is on disk
-            case["after_final"] = case["boundary"] in AFTER_FINAL and case["disk_state"] in ("A", "T0", "Tm", "T1", "C", "D")
+            case["after_final"] = case["boundary"] in AFTER_FINAL and case["disk_state"] not in ("-", "?", None)
         return self.after_kill(case, h, scen)
 
     def disk_state(self, h):
-        """the compaction states a kill can leave (since eb925d1: <twin>.tmp is written, closed, renamed to <twin>, then the
-        original is unlinked): A original only, T0 original + empty tmp, Tm original + tmp whose line is not complete (no
-        newline yet), T1 original + complete tmp, C original + published twin, D twin only, - nothing"""
-        orig, twin, tmp, tpath = None, None, None, None
+        """what the LAST run has in the history directory, whatever the protocol: O = its original <run>.dat, T0 / Tm / T1 = its
+        <run>_c.dat.tmp (empty / line not complete: no newline yet / complete), C = its published twin <run>_c.dat;
+        joined by +, "-" = nothing.  Files of the prior run of scenario `prior` are not counted."""
+        skip = (self.prior.get(h) or {}).get("req") or "\0"
+        orig = twin = tmp = tpath = None
         try:
             for root, _, files in os.walk(os.path.join(h, "data")):
                 for f in files:
+                    if skip[:8] in f:
+                        continue
                     if f.endswith("_c.dat.tmp"):
                         tpath = os.path.join(root, f)
                         tmp = os.path.getsize(tpath)
                     elif f.endswith("_c.dat"):
-                        twin = os.path.getsize(os.path.join(root, f))
+                        twin = True
                     elif f.endswith(".dat"):
-                        orig = os.path.getsize(os.path.join(root, f))
-            if tmp is not None and twin is None and orig is not None:
+                        orig = True
+            parts = []
+            if orig:
+                parts.append("O")
+            if tmp is not None:
                 if tmp == 0:
-                    return "T0"
-                with open(tpath, "rb") as fh:
-                    fh.seek(-1, 2)
-                    return "T1" if fh.read(1) == b"\n" else "Tm"
+                    parts.append("T0")
+                else:
+                    with open(tpath, "rb") as fh:
+                        fh.seek(-1, 2)
+                        parts.append("T1" if fh.read(1) == b"\n" else "Tm")
+            if twin:
+                parts.append("C")
+            return "+".join(parts) or "-"
         except OSError:
             return "?"
-        if orig is None and twin is None:
-            return "-"
-        if twin is None:
-            return "A"
-        if orig is None:
-            return "D"
-        return "C"
+
+    def slowed(self, h, scen, log):
+        delay = "delay_enter=15000"
+        return subprocess.Popen(["strace", "-f", "-b", "execve", "-o", log, "-e", "trace=write,unlinkat,fsync,renameat",
+                                 "-e", "inject=write:" + delay, "-e", "inject=unlinkat:" + delay, "-e", "inject=fsync:" + delay,
+                                 "-e", "inject=renameat:" + delay,
+                                 self.bd, "start", "-q", self.dag(h, scen)], env=self.env(h), stdout=subprocess.DEVNULL,
+                                stderr=subprocess.DEVNULL, start_new_session=True)
+
+    def reference_states(self, scen):
+        """the directory states an uninterrupted (slowed) run passes through, in order - whatever the compaction protocol is.
+        The states after the first change of the plain "O" are the kill targets."""
+        h = self.home(scen)
+        p = self.slowed(h, scen, os.path.join(h, "strace.log"))
+        seen = []
+        t_end = time.time() + 60
+        while time.time() < t_end and p.poll() is None:
+            st = self.disk_state(h)
+            if st != "?" and (not seen or seen[-1] != st):
+                seen.append(st)
+            time.sleep(0.0004)
+        try:
+            p.wait(timeout=30)
+        except subprocess.TimeoutExpired:
+            p.kill()
+            p.wait()
+        st = self.disk_state(h)
+        if not seen or seen[-1] != st:
+            seen.append(st)
+        o = self.latest(h, scen)
+        return seen
 
     def kill_in_state(self, scen, target):
-        """SIGKILL while the history directory is in compaction state `target` (T0, Tm, T1, C or D): the run is slowed down by
-        strace (every write / fsync / renameat / unlinkat of the process is delayed on entry), an observer polls the directory
-        and kills the run's process when it sees the state.  What was really left on disk is recorded (`disk_state`)."""
+        """SIGKILL while the last run's files in the history directory are in state `target` (one of the states an uninterrupted run
+        was seen to pass through - nothing about the compaction protocol is presupposed): the run is slowed down by strace
+        (every write / fsync / renameat / unlinkat of the process is delayed on entry), an observer polls the directory and
+        kills the run's process when it sees the state.  What was really left on disk is recorded (`disk_state`)."""
         h = self.home(scen)
         env = self.env(h)
         case = {"scenario": scen, "how": "state", "arg": target, "home": os.path.basename(h), "after_final": True}
         log = os.path.join(h, "strace.log")
-        delay = "delay_enter=15000"
-        p = subprocess.Popen(["strace", "-f", "-b", "execve", "-o", log, "-e", "trace=write,unlinkat,fsync,renameat",
-                              "-e", "inject=write:" + delay, "-e", "inject=unlinkat:" + delay, "-e", "inject=fsync:" + delay,
-                              "-e", "inject=renameat:" + delay,
-                              self.bd, "start", "-q", self.dag(h, scen)], env=env, stdout=subprocess.DEVNULL, stderr=subprocess.DEVNULL,
-                             start_new_session=True)
+        p = self.slowed(h, scen, log)
         tracee = None
         t_end = time.time() + 60
         killed = False
@@ -599,6 +654,8 @@ class Crash:
         env = self.env(h)
         time.sleep(0.09)      # orphaned step commands (30 ms sleeps) finish
         case["markers"] = self.markers(h)
+        if h in self.prior:
+            case["prior"] = self.prior[h]
         post = self.latest(h, scen)
         case["post"] = post
         if not case["killed"]:
@@ -637,10 +694,11 @@ class Crash:
 
     def cleanup(self):
         for s in self.socks:
-            try:
-                os.unlink(s)
-            except OSError:
-                pass
+            for f in (s, s + ".lock"):      # the start lock file next to the socket address is created on demand and never removed
+                try:
+                    os.unlink(f)
+                except OSError:
+                    pass
 
 
 def _walk(log):
@@ -711,7 +769,7 @@ def _walk(log):
         elif sysc == "renameat":
             label = "renameat:history-tmp" if ".dat.tmp" in args else "renameat:other"
         elif sysc == "flock":
-            label = "flock:dag-file"
+            label = "flock:start-lock"
         elif sysc == "mkdirat":
             label = "mkdirat:" + ("data-dir" if "/data" in args else "log-dir" if "/logs" in args else "other")
         elif sysc in ("connect", "bind"):
@@ -756,6 +814,7 @@ def monitor_crash(case):
     if not case["killed"]:
         return out
     marks = set(case["markers"])
+    pr = case.get("prior")
     L = post.get("latest")
     def empty_class():
         """an empty ORIGINAL (kill between history Open and the first line) is the class of finding F7a; an empty compaction
@@ -776,7 +835,14 @@ def monitor_crash(case):
         t = table(L)
         if L["st"] == RUNNING:
             out.append(("killed run reported as running", {"class": "dead-running"}))
-        if L["st"] == FINISHED:
+        own = [f for f in (post.get("files") or []) if not (pr and (pr.get("req") or "\0")[:8] in f)]
+        if pr and L.get("req") == pr.get("req"):
+            # the status of the PREVIOUS run is reported: legitimate only while the killed run has nothing readable on disk
+            # (a run killed before its first history line leaves no trace, as one killed before history Open)
+            if any(not f.endswith(":0") for f in own):
+                out.append(("the killed run has a history file with content %s but the DAG is reported with the previous run's status %r"
+                            % (own, L["text"]), {"class": "previous-run-reported"}))
+        elif L["st"] == FINISHED:
             incomplete = [s for s in scen["steps"] if s + ".end" not in marks and s not in scen["fails"]]
             if any(s not in DONE_OK for s in t) or incomplete:
                 # `finished` answered while steps are pending (not started; or - the overall status being read before the node
@@ -786,7 +852,14 @@ def monitor_crash(case):
                 out.append(("killed run reported as finished although step(s) %s never completed (reported steps %s, markers %s)"
                             % ([n["name"] for n in L["nodes"] if n["st"] not in DONE_OK] or incomplete, t, sorted(marks)), cls))
     ran_all = all((st + ".end") in marks for st in scen["steps"][:min([scen["steps"].index(f) for f in scen["fails"]], default=len(scen["steps"]))])
-    if case.get("after_final") and ran_all and L is not None and not post.get("latest_err"):
+    pr = case.get("prior")
+    if pr and (pr.get("rc") != 0 or pr.get("st") != FINISHED):
+        out.append(("the prior run of scenario `prior` did not succeed", {"class": "infra"}))
+    if pr and case.get("after_final") and ran_all and L is not None and L.get("req") == pr.get("req"):
+        out.append(("killed inside the shutdown (%s, last run's files: %s) after its final status (failed) had been written: the DAG is reported with "
+                    "the PREVIOUS run's status %r (request id of the previous run)" % (case["boundary"], case.get("disk_state"), L["text"]),
+                    {"class": "shutdown-kill-previous-run"}))
+    elif case.get("after_final") and ran_all and L is not None and not post.get("latest_err"):
         want_st, want_tbl = FINAL[case["scenario"]]
         if L["st"] != want_st or table(L) != want_tbl:
             out.append(("killed inside the shutdown (%s, history directory state %s), after the final status had been written: reported %r %s, not the final state %s"
@@ -865,19 +938,30 @@ def run_crash(ctx, bd, helper, tier, rng, workers=8):
             cases.append(c)
         # kills INSIDE Close's compaction, by the state of the history directory (T0: tmp created and still empty, Tm: tmp mid-write,
         # T1: tmp complete, not yet renamed, C: twin published next to the original, D: original unlinked)
-        reps = 1 if tier == "quick" else 4
-        sj = [(scen, st) for scen in SCENARIOS if info[scen]["reference_ok"] and (tier != "quick" or scen in ("chain", "big", "retry"))
-              for st in (("T0", "Tm", "T1", "C", "D") if scen == "big" else ("T0", "T1", "C", "D")) for _ in range(reps)]
+        reps = 1 if tier == "quick" else 3
+        sj = []
+        for scen in SCENARIOS:
+            if not info[scen]["reference_ok"] or (tier == "quick" and scen not in ("chain", "big", "prior")):
+                continue
+            seq = cr.reference_states(scen)
+            info[scen]["directory_states_of_an_uninterrupted_run"] = seq
+            # every state from the first departure from the plain original on (the shutdown), each once
+            k = next((i for i, x in enumerate(seq) if x not in ("-", "O")), len(seq))
+            tg = []
+            for x in seq[k:]:
+                if x not in tg:
+                    tg.append(x)
+            sj += [(scen, st) for st in tg for _ in range(reps)]
         for c in ex.map(lambda j: cr.kill_in_state(*j), sj):
             cases.append(c)
     hit = {(c["scenario"], c.get("boundary")) for c in cases if c.get("killed")}
     states = {}
     for c in cases:
-        if c.get("killed") and c.get("disk_state") in ("T0", "Tm", "T1", "C", "D"):
+        if c.get("killed") and c.get("how") == "state":
             k = "%s/%s" % (c["scenario"], c["disk_state"])
             states[k] = states.get(k, 0) + 1
     info["shutdown_boundaries"] = {"aimed_at": sorted({"%s/%s" % (a, b) for a, b, _, _ in wanted}),
                                    "hit": sorted({"%s/%s" % (a, b) for a, b, _, _ in wanted if (a, b) in hit}),
-                                   "compaction_states_left_by_a_kill (T0 tmp empty, Tm tmp mid-write, T1 tmp complete, C twin + original, D twin only)": states}
+                                   "states_left_by_a_kill_inside_the_shutdown (O original, T0/Tm/T1 tmp empty/mid-write/complete, C published twin)": states}
     cr.cleanup()
     return cases, info
